@@ -3,7 +3,11 @@
    [run] closure of RuleClient.Run (ruleProcessPoints, then ruleRunActions /
    ruleInactiveActions on a state change), [process] of ruleProcessPoints,
    [w] the schedule window test (parameter, see C14), a history is a list of
-   batches (node, points). *)
+   batches (node, points).  [step_cfg] is the model of the configuration-change
+   path of Run (case newPoints: [merge] of the points handed over by the
+   manager into the configuration, then run("", nil): a trigger point with the
+   current time [t] through ruleProcessPoints at the rule's own id, then the
+   action lists whatever [changed] says). *)
 From Coq Require Import String.
 From Verif Require Import Base.Bytes Rule.Model Rule.Proofs.
 Local Open Scope N_scope.
@@ -95,6 +99,75 @@ Proof.
 Qed.
 Print Assumptions C13_actions_once.
 
+(* ---------- the configuration-change path ---------- *)
+(* After a configuration change every condition the property speaks about, as
+   it is configured after the merge, that the trigger point concerns (a schedule
+   whose window test is defined at [t]; a point condition whose filters accept
+   a point of type "trigger", empty key, value 0 and empty text from the rule's
+   own node) is active exactly when that point satisfies it (for a schedule:
+   when [t] lies in its window); every other condition is unchanged. *)
+Theorem C13_config_change_conditions :
+  forall (w : window_t) (r : rule) (node : bytes) (pts : list point) (sch : option N) (t : Z),
+    Forall2 (fun c c' =>
+               c_cfg c' = c_cfg c /\
+               (in_scope (c_cfg c) = true ->
+                match latest (matches w (c_cfg c)) [(r_id r, trigger_point t)] with
+                | Some (_, p) => c_active c' = satisfies w (c_cfg c) p
+                | None => c_active c' = c_active c
+                end))
+            (r_conds (merge r node pts sch)) (r_conds (fst (step_cfg text_cmp w r node pts sch t))).
+Proof. exact config_change_conditions. Qed.
+Print Assumptions C13_config_change_conditions.
+
+(* and the rule is active exactly when all of its conditions are *)
+Theorem C13_config_change_rule_active :
+  forall (w : window_t) (r : rule) (node : bytes) (pts : list point) (sch : option N) (t : Z),
+    let ra := fst (step_cfg text_cmp w r node pts sch t) in
+    r_active ra = forallb c_active (r_conds ra).
+Proof. exact config_change_rule_active. Qed.
+Print Assumptions C13_config_change_rule_active.
+
+(* For every rule and every configuration-change event: the merge keeps the
+   rule's id, state and error and, element by element, the ids, active flags
+   and errors of conditions and actions (it only edits their configuration);
+   and if the rule's state after the event differs from its state before, the
+   action list of the new state has run once (per action: the configured point
+   to the target node with the rule as origin -- the action itself when the
+   target is the rule -- for a well-formed set-value action, then the action
+   marked active) and the opposite list has been marked inactive (per action
+   one active = 0 point, the flag cleared in the configuration), nothing else
+   being sent by ruleRunActions' set-value / active marks or by
+   ruleInactiveActions; the actions are those of the configuration after the
+   merge. *)
+Theorem C13_config_change_actions :
+  forall (w : window_t) (r : rule) (node : bytes) (pts : list point) (sch : option N) (t : Z),
+    let rm := merge r node pts sch in
+    let ra := fst (step_cfg text_cmp w r node pts sch t) in
+    let o := snd (step_cfg text_cmp w r node pts sch t) in
+    (r_id rm = r_id r /\ r_active rm = r_active r /\ r_error rm = r_error r /\
+     Forall2 (fun c c' => c_id (c_cfg c') = c_id (c_cfg c) /\ c_active c' = c_active c /\ c_error c' = c_error c) (r_conds r) (r_conds rm) /\
+     Forall2 (fun a a' => a_id (a_cfg a') = a_id (a_cfg a) /\ a_active a' = a_active a /\ a_error a' = a_error a) (r_acts r) (r_acts rm) /\
+     Forall2 (fun a a' => a_id (a_cfg a') = a_id (a_cfg a) /\ a_active a' = a_active a /\ a_error a' = a_error a) (r_iacts r) (r_iacts rm)) /\
+    (r_active ra <> r_active r ->
+     filter is_action_out o = action_points (r_id rm) (r_acts rm) (r_iacts rm) (r_active ra) /\
+     Forall2 (fun a a' => a_cfg a' = a_cfg a /\ a_active a' = r_active ra) (r_acts rm) (r_acts ra) /\
+     Forall2 (fun a a' => a_cfg a' = a_cfg a /\ a_active a' = negb (r_active ra)) (r_iacts rm) (r_iacts ra)).
+Proof. exact config_change_actions. Qed.
+Print Assumptions C13_config_change_actions.
+
+(* the code does not look at [changed] on this path: the lists run on every
+   configuration change (so that an edited action value reaches its target) *)
+Theorem C13_config_change_always :
+  forall (w : window_t) (r : rule) (node : bytes) (pts : list point) (sch : option N) (t : Z),
+    let rm := merge r node pts sch in
+    let ra := fst (step_cfg text_cmp w r node pts sch t) in
+    let o := snd (step_cfg text_cmp w r node pts sch t) in
+    filter is_action_out o = action_points (r_id rm) (r_acts rm) (r_iacts rm) (r_active ra) /\
+    Forall2 (fun a a' => a_cfg a' = a_cfg a /\ a_active a' = r_active ra) (r_acts rm) (r_acts ra) /\
+    Forall2 (fun a a' => a_cfg a' = a_cfg a /\ a_active a' = negb (r_active ra)) (r_iacts rm) (r_iacts ra).
+Proof. exact config_change_always. Qed.
+Print Assumptions C13_config_change_always.
+
 (* the implementation of strings.Contains used by the model agrees with "occurs at some offset" *)
 Theorem C13_contains_spec : forall hay needle, contains hay needle = spec_contains hay needle.
 Proof. exact contains_spec. Qed.
@@ -140,3 +213,48 @@ Example C13_cycle_example :
     (true, [ (bs "t1", bs "value", f_one, bs "rule1"); (bs "a0", bs "active", f_one, bs "rule1"); (bs "i0", bs "active", 0, bs "rule1") ]);
     (false, [ (bs "rule1", bs "description", 0, bs "i0"); (bs "i0", bs "active", f_one, bs "rule1"); (bs "a0", bs "active", 0, bs "rule1") ]) ].
 Proof. vm_compute. reflexivity. Qed.
+
+(* ---------- non-vacuity of the configuration-change theorems ----------
+   A rule with one schedule condition (handle 0: the window contains every
+   instant) that is active, its action marked active.  The manager hands over a
+   new start and end for the condition; after the merge its schedule is handle
+   7, whose window contains no instant.  The trigger evaluation makes the rule
+   inactive: the inactive-action's point goes to t2 with the rule as origin, the
+   inactive-action is marked active and the action is marked inactive. *)
+Definition ex_sched : ccfg :=
+  {| c_id := bs "c0"; c_ctype := s_schedule; c_node := []; c_ptype := []; c_pkey := [];
+     c_vtype := []; c_op := []; c_value := 0; c_vtext := []; c_sched := 0 |}.
+Definition ex_cfg_rule : rule :=
+  {| r_id := bs "rule1"; r_active := true; r_error := [];
+     r_conds := [{| c_cfg := ex_sched; c_active := true; c_error := [] |}];
+     r_acts := [set_a_active ex_act true];
+     r_iacts := [{| a_cfg := {| a_id := bs "i0"; a_action := s_setValue; a_node := bs "t2"; a_ptype := bs "value";
+                               a_value := 0; a_vtext := [] |}; a_active := false; a_error := [] |}] |}.
+Definition ex_cfg_w : window_t := fun h _ => WIn (N.eqb h 0).
+Definition ex_cfg_pts : list point :=
+  [ {| p_type := bs "start"; p_key := []; p_time := 5%Z; p_value := 0; p_text := bs "22:00" |};
+    {| p_type := bs "end"; p_key := []; p_time := 5%Z; p_value := 0; p_text := bs "23:00" |} ].
+
+Example C13_config_change_example :
+  let '(ra, o) := step_cfg text_cmp ex_cfg_w ex_cfg_rule (bs "c0") ex_cfg_pts (Some 7) 1000%Z in
+  cfg_in_scope ex_cfg_rule (bs "c0") ex_cfg_pts = true /\
+  r_active ex_cfg_rule = true /\ r_active ra = false /\
+  map (fun c => (c_sched (c_cfg c), c_active c)) (r_conds ra) = [(7, false)] /\
+  map a_active (r_acts ra) = [false] /\ map a_active (r_iacts ra) = [true] /\
+  map (fun x => (o_node x, o_type x, o_value x, o_origin x)) (filter is_action_out o) =
+    [ (bs "t2", bs "value", 0, bs "rule1"); (bs "i0", bs "active", f_one, bs "rule1"); (bs "a0", bs "active", 0, bs "rule1") ].
+Proof. vm_compute. repeat split; reflexivity. Qed.
+
+(* a description point on the rule node changes nothing in the configuration,
+   yet a rule whose stored state is stale (all conditions hold, the rule still
+   inactive, the inactive-action still marked active) flips on this path *)
+Example C13_config_change_stale_example :
+  let r := {| r_id := bs "rule1"; r_active := false; r_error := [];
+              r_conds := [{| c_cfg := ex_c0; c_active := true; c_error := [] |}];
+              r_acts := [ex_act]; r_iacts := [set_a_active ex_iact true] |} in
+  let '(ra, o) := step_cfg text_cmp ex_w r (bs "rule1")
+                    [{| p_type := bs "description"; p_key := []; p_time := 0%Z; p_value := 0; p_text := bs "new name" |}] None 1000%Z in
+  r_active ra = true /\ map a_active (r_acts ra) = [true] /\ map a_active (r_iacts ra) = [false] /\
+  map (fun x => (o_node x, o_type x, o_value x, o_origin x)) (filter is_action_out o) =
+    [ (bs "t1", bs "value", f_one, bs "rule1"); (bs "a0", bs "active", f_one, bs "rule1"); (bs "i0", bs "active", 0, bs "rule1") ].
+Proof. vm_compute. repeat split; reflexivity. Qed.
